@@ -263,7 +263,28 @@ func Harness_C14_hub_topic_delete() {
 	fx.store.failAt = verifChoose("failAt", 2) - 1
 	msg := &ClientComMessage{Id: "d1", AsUser: actor.UserId(), AuthLvl: int(auth.LevelAuth), Original: t.name, RcptTo: t.name,
 		Timestamp: types.TimeNow(), sess: as, init: true, Del: &MsgClientDel{Id: "d1", Topic: t.name, What: "topic", Hard: verifNondetBool("hard")}}
+	// while the store is busy deleting the topic (the hub's goroutine), the topic's own goroutine may pick up a
+	// publish from an attached writer: a topic that is being deleted refuses it, without any effect
+	rowsBefore, lastBefore := len(fx.store.msgs), t.lastID
+	pubRefused := true
+	if byOwner {
+		verifDuringTopicDelete = func() {
+			pub := &ClientComMessage{Id: "p1", AsUser: member.UserId(), AuthLvl: int(auth.LevelAuth), Original: t.name, RcptTo: t.name,
+				Timestamp: types.TimeNow(), sess: sm, init: true, Pub: &MsgClientPub{Id: "p1", Topic: t.name, Content: "late"}}
+			t.handleClientMsg(pub)
+			pubRefused = false
+			for _, r := range verifDrainSend(sm) {
+				if r != nil && r.Ctrl != nil && r.Ctrl.Id == "p1" && r.Ctrl.Code >= 400 {
+					pubRefused = true
+				}
+			}
+		}
+	}
 	err := hub.topicUnreg(as, t.name, msg, StopDeleted)
+	if byOwner {
+		verifAssert(pubRefused, "publish-to-a-topic-being-deleted-is-refused")
+		verifAssert(len(fx.store.msgs) == rowsBefore && t.lastID == lastBefore, "publish-to-a-topic-being-deleted-has-no-effect")
+	}
 	faulted := fx.store.failed
 	fx.store.failAt = -1
 	if !byOwner {
